@@ -33,9 +33,33 @@ def seed_desc(patch):
         s = ""
     return (os.path.basename(d), s)
 
+HAND = {
+ "c01-tagiter-unchecked-slice": "TagIter::next slices the buffer with get_unchecked instead of the bounds-checked index",
+ "c01-fb-reader-unchecked": "framebuffer colour-info Reader reads through a raw pointer without its bounds check",
+ "c02-endtag-type-only": "has_valid_end_tag compares the type only, not the size 8",
+ "c04-apm-swap-cseg-dseg": "ApmTag fields cseg and dseg swapped in the #[repr(C)] struct",
+ "c04-getter-last-match": "get_tag returns the last matching tag instead of the first",
+ "c05-mmap-drop-divisibility": "MemoryMapTag::dst_len without the remainder assertion - EQUIVALENT: any remainder changes size_of_val, so cast() still panics",
+ "c06-modules-reversed": "Builder::build pushes the module tags in reverse order",
+ "c06-smbios-pushed-twice": "Builder::build pushes the first SMBIOS tag again when more than two were added",
+ "c07-efi64-ih-be-bytes": "EFIImageHandle64Tag::new rotates pointers above 4 GiB by 32 bits",
+ "c07-address-swap-args": "AddressHeaderTag::new stores load_end_addr and bss_end_addr swapped",
+ "c08-mmap-assert-debug-only": "MemoryMapTag::memory_areas entry-size assertion demoted to debug_assert",
+ "c10-checks-swapped": "Multiboot2Header::load verifies the checksum before the magic",
+ "c11-fbhdr-swap-width-height": "FramebufferHeaderTag::width() returns the height field",
+ "c12-drop-efi64-when-relocatable": "header Builder drops the EFI64 entry tag when relocatable and EFI32 tags are both present",
+ "c13-idx-mod-4": "find_header accepts a magic at a 4-aligned (not 8-aligned) offset",
+ "c16-write-offset-skips-empty": "new_boxed advances the write offset for an empty slice at one particular residue",
+ "c19-elf32-addr-wrong-offset": "ElfSectionInner32: addr and offset fields swapped",
+ "c20-memarea-custom-5": "MemoryAreaType::from maps 0x80000005 to Defective as well",
+ "c15-cast-le": "cast() accepts a typed view up to 8 bytes larger than the tag",
+ "c17-blname-always-append": "BootLoaderNameTag::new rewritten with strip_suffix - EQUIVALENT: produces the same bytes for every input",
+ "c09-inforeq-no-rem-check": "InformationRequestHeaderTag::dst_len without the remainder assertion (caught by C05, which owns the remainder rule; C09 only states memory safety)",
+}
+
 def mut_desc(patch):
     b = os.path.basename(patch).replace(".patch", "")
-    desc = ""
+    desc = HAND.get(b, "")
     if b.startswith("revert-fix"):
         k = b.split("-")[1]
         for l in open(os.path.join(HERE, "mutants/fixes.txt")):
